@@ -65,7 +65,7 @@ class JP_Abs(JumpInstruction):
 
         first, *rest = self.operands()
         assert len(rest) == 0, "Expected no extra operands"
-        if isinstance(first, ImmOperand):
+        if isinstance(first, ImmOperand) and not isinstance(first, Pointer):
             # absolute address
             assert first.value is not None, "Value not set"
             dest = first.value
@@ -75,6 +75,10 @@ class JP_Abs(JumpInstruction):
                 BranchType.TrueBranch if self._cond else BranchType.UnconditionalBranch
             )
             info.add_branch(branch_type, dest)
+        else:
+            # JP r3 / JP (n): the target comes from a register or from internal
+            # memory and is not known statically.
+            info.add_branch(BranchType.UnresolvedBranch)
 
 
 class JP_Rel(JumpInstruction):
